@@ -7,7 +7,7 @@
 From Coq Require Import List ZArith Bool.
 From Coq Require Import Permutation Sorted.
 From TskVerif Require Import Base.Common C14.Model C14.Spec C14.Basics C14.SubsetMain
-     C14.SubsetCorollaries C14.SubsetIdentity C14.UnionProofs C14.UnionRows C14.SortProofs C14.UnionFull C14.UnionRefs C14.InverseProofs C14.Examples.
+     C14.SubsetCorollaries C14.SubsetIdentity C14.UnionProofs C14.UnionRows C14.SortProofs C14.UnionFull C14.UnionRefs C14.InverseProofs C14.InverseRows C14.GuardProofs C14.SortRemap C14.Examples.
 Import ListNotations.
 Open Scope Z_scope.
 
@@ -232,3 +232,72 @@ Theorem canonicalise_is_sorted_subset : forall t keep_unreferenced c,
     Permutation (map mut_core (t_mutations c)) (map mut_core (t_mutations t1)) /\
     Permutation (map ind_core (t_individuals c)) (map ind_core (t_individuals t1)).
 Proof. exact canonicalise_spec. Qed.
+
+(* ---- second extension round: no hypothesis on the input any more ---- *)
+(* the modelled tsk_table_collection_check_integrity(…,0) (the first thing subset and union
+   call) establishes the reference bounds every theorem above assumes *)
+Theorem integrity_guard_gives_refs : forall t, check_integrity0 t = Ok tt -> refs_in_range t = true.
+Proof. exact guard_gives_refs. Qed.
+
+(* subset as the library runs it, for EVERY table collection and EVERY node list: the guard's
+   error code, or TSK_ERR_NODE_OUT_OF_BOUNDS, or exactly the specified tables *)
+Theorem subset_total : forall t nodes keep_unreferenced no_change_populations,
+  subset_checked t nodes keep_unreferenced no_change_populations =
+  if integrity_code t =? 0
+  then (if forallb (in_range (zlen (t_nodes t))) nodes
+        then Ok (spec_subset t nodes keep_unreferenced no_change_populations) else Err ERR_NODE_OOB)
+  else Err (integrity_code t).
+Proof. exact subset_total_lemma. Qed.
+
+(* union as the library runs it: a guard error (self first, then other), or the unguarded
+   function on two collections with in-range references — to which (f) applies *)
+Theorem union_total : forall self other mapping check_shared add_populations,
+  union_checked self other mapping check_shared add_populations =
+  if negb (integrity_code self =? 0) then Err (integrity_code self)
+  else if negb (integrity_code other =? 0) then Err (integrity_code other)
+  else union self other mapping check_shared add_populations.
+Proof. exact union_total_lemma. Qed.
+
+Theorem union_checked_ok_gives_refs : forall self other mapping check_shared add_populations u,
+  union_checked self other mapping check_shared add_populations = Ok u ->
+  refs_in_range self = true /\ refs_in_range other = true /\
+  union self other mapping check_shared add_populations = Ok u.
+Proof. exact union_checked_adds_exactly_lemma. Qed.
+
+(* (g, mutations and sites) if every mutation sits on a node of A or of B and the mutation
+   table is sorted by site (both hold for a tree sequence and a cover), the re-joined collection
+   holds exactly the original mutations, each once — derived state, time, metadata; node renamed
+   by [cover_id] —, its sites have strictly increasing positions and each is a site row of T.
+   Still differential for the full inverse law: the recomputed mutation parents, individuals and
+   populations (their exact rows are given by [union_refs_exact]). *)
+Theorem subset_union_inverse_mutations_partial :
+  forall T A B keep_unreferenced no_change_populations check_shared add_populations S O U,
+  refs_in_range T = true ->
+  NoDup A -> NoDup B ->
+  (forall m, In m (t_mutations T) -> listed A (m_node m) || listed B (m_node m) = true) ->
+  StronglySorted (fun a b => m_site a <= m_site b) (t_mutations T) ->
+  subset T A keep_unreferenced no_change_populations = Ok S ->
+  subset T B keep_unreferenced no_change_populations = Ok O ->
+  union S O (mapping_of A B) check_shared add_populations = Ok U ->
+  Permutation (map mut_core (t_mutations U)) (map (renamed_core (cover_id A B)) (t_mutations T)) /\
+  StronglySorted (fun a b => s_pos a < s_pos b) (t_sites U) /\
+  (forall s, In s (t_sites U) -> In s (t_sites T)).
+Proof. exact subset_union_inverse_mutations_lemma. Qed.
+
+(* the sorter's id remaps and key order (used by union, by TableCollection.subset and — with
+   cmp_mutation_canonical, also total: SortRemap.mutation_canonical_le_total — by canonicalise):
+   site_id_map designates the same site row after sorting; the mutations carry the new site id,
+   are in the order of the comparison function, and mutation_id_map sends an old id to the output
+   row made from it (which is what the remapped parent column points to) *)
+Theorem sort_id_maps_correct : forall mle ss ms ss' ms',
+  (forall x y, mle x y = true \/ mle y x = true) ->
+  sort_sites_mutations mle ss ms = Ok (ss', ms') ->
+  let smap := positions_from 0 (isort site_le (index_from 0 ss)) mnull in
+  (forall s a, getz ss s = Ok a -> getz ss' (smap s) = Ok a) /\
+  exists sorted,
+    Permutation sorted (index_from 0 (map (fun m => set_site m (smap (m_site m))) ms)) /\
+    Sorted (fun a b => mle a b = true) sorted /\
+    let pmap := positions_from 0 sorted mnull in
+    ms' = map (fun im => set_parent (snd im) (remap_ref pmap (m_parent (snd im)))) sorted /\
+    (forall p m, getz ms p = Ok m -> exists m1, getz sorted (pmap p) = Ok (p, m1)).
+Proof. exact sort_sites_mutations_remap. Qed.
